@@ -69,6 +69,11 @@ PROPS = {
         "quick": {"stages": [st("^TestC12", 500)]},
         "thorough": {"stages": [st("^TestC12", 4000, shards=12), st("^TestC12", 600, shards=4, race=True)]},
     },
+    "C13": {
+        "pkg": "session", "level": "exploration",
+        "quick": {"stages": [st("^TestC13Termination", 600), st("^TestC13WebSocket", 3, shrinktime="40s")]},
+        "thorough": {"stages": [st("^TestC13Termination", 5000, shards=12), st("^TestC13Termination", 800, shards=3, race=True), st("^TestC13WebSocket", 20, shards=1, shrinktime="60s")]},
+    },
     "C10": {
         "pkg": "core", "level": "exploration",
         "quick": {"stages": [st("^TestC10", 15000)]},
